@@ -135,15 +135,25 @@ def oracle_qeireal(inp):
   blocks = [rs.normal(size=(b, c)) for _ in range(passes)]
   models = [gp] + fgps
   per_set = []
+  # How much a model's own posterior mean moves with the GROUPING of the points it is asked at (the union at once / candidates and pending points apart):
+  # rounding, ~1e-16 - except for a kernel that is not differentiable at r = 0 (C0 Matern) at a candidate that IS a sampled point, where the batched
+  # distance |x|^2 + |z|^2 - 2 x.z leaves r ~ 1e-8 instead of 0 and the mean moves by ~1e-8 (thorough tier, seed 31337).  Which grouping the class
+  # uses is not C17's subject; the measured spread is added to the tolerance and to the threshold guard.
+  mean_sens = 0.0
   for k in range(len(sets)):
     union = numpy.concatenate((sets[k], pend), axis=0)
     ml = []
     for m in models:
+      apart = numpy.concatenate([m.compute_mean_of_points(sets[k])] + ([m.compute_mean_of_points(pend)] if p else []))
+      mean_sens = max(mean_sens, float(numpy.abs(apart - m.compute_mean_of_points(union)).max()))
       L = factor_of(m.compute_covariance_of_points(union))
       if L is None:
         return fail("no factor was computed for the posterior covariance of a model at a candidate set ++ pending points", k, "one factorisation per model and set")
       ml.append((m.compute_mean_of_points(union), L))
     per_set.append(ml)
+  if mean_sens > 1e-6:
+    _stat("undecided:mean-depends-on-grouping")
+    return None
   want = numpy.zeros(len(sets))
   scale = 1.0
   for z in blocks:
@@ -156,7 +166,7 @@ def oracle_qeireal(inp):
       scale = max([scale] + [float(numpy.abs(y).max()) for y in ys])
       feas = numpy.ones((b, c), dtype=bool)
       for y, f in zip(ys[1:], inp["fails"]):
-        if float(numpy.abs(y - f["threshold"]).min()) < 1e-9 * (1.0 + float(numpy.abs(y).max())):
+        if float(numpy.abs(y - f["threshold"]).min()) < 1e-9 * (1.0 + float(numpy.abs(y).max())) + 2.0 * mean_sens:
           _stat("undecided:sample-on-threshold")
           return None     # a sample within rounding of its threshold: the indicator is not decided by this oracle
         feas &= y < f["threshold"]
@@ -167,7 +177,7 @@ def oracle_qeireal(inp):
       return None       # the whole pass vanishes: the library switches to its success-probability fallback (C05), not decided here
     want += terms.sum(axis=1)
   want /= passes * b
-  tol = 1e-9 * (1.0 + scale + abs(best))
+  tol = 1e-9 * (1.0 + scale + abs(best)) + 2.0 * mean_sens
   if got.shape != want.shape or not numpy.isfinite(got).all() or float(numpy.abs(got - want).max()) > tol:
     return fail("the estimate is not the mean sampled improvement of mean + L z with each model's own factor", got.tolist(), want.tolist())
   _stat(f"decided:models={len(models)}:points={c}" + (":positive" if float(want.max()) > 0 else ":zero"))
